@@ -45,7 +45,7 @@ class World:
                         tick_interval_secs=tick_secs)
         self.jobs = []  # spawned coroutines not yet run: (kind, closure agg)
         self.channel = []  # scheduler signals that reached the mpsc channel
-        self.clock = 1000
+        self.clock = 1_700_000_000_000  # epoch-like milliseconds: a start_time of 0 is far in the past, as on a real clock
         self.clock_sym = None
         self.ids = 0
         self.messages = []  # generated messages (python dicts) in generation order
